@@ -42,7 +42,7 @@ func isInSchemaRegistry(typ reflect.Type) (Schema, bool) {
 	return s, ok
 }
 
-func schemaForType(typ reflect.Type) (Schema, error) {
+func schemaForType(typ reflect.Type, seen ...reflect.Type) (Schema, error) {
 	if s, ok := isInSchemaRegistry(typ); ok {
 		return s, nil
 	}
@@ -59,14 +59,14 @@ func schemaForType(typ reflect.Type) (Schema, error) {
 	case reflect.String:
 		return Schema{Type: "string"}, nil
 	case reflect.Struct:
-		return schemaForStruct(typ)
+		return schemaForStruct(typ, seen...)
 	case reflect.Array, reflect.Slice:
-		return schemaForArray(typ)
+		return schemaForArray(typ, seen...)
 	case reflect.Map:
-		return schemaForMap(typ)
+		return schemaForMap(typ, seen...)
 	case reflect.Pointer:
 		// If this is a pointer to a basic type then we don't need to wrap in a union as all the basic types are nullable.
-		underlying, err := schemaForType(typ.Elem())
+		underlying, err := schemaForType(typ.Elem(), seen...)
 		if err != nil {
 			return Schema{}, fmt.Errorf("getting underlying schema for pointer: %w", err)
 		}
@@ -89,7 +89,17 @@ func nullableSchema(s Schema) Schema {
 	}
 }
 
-func schemaForStruct(typ reflect.Type) (Schema, error) {
+func schemaForStruct(typ reflect.Type, seen ...reflect.Type) (Schema, error) {
+	// seen holds the struct types we are in the middle of generating. Meeting
+	// one of them again means the type refers to itself, which would need a
+	// named type reference that we don't support.
+	for _, t := range seen {
+		if t == typ {
+			return Schema{}, fmt.Errorf("type %s not supported: it refers to itself", typ)
+		}
+	}
+	seen = append(seen[:len(seen):len(seen)], typ)
+
 	fields := make([]SchemaRecordField, 0, typ.NumField())
 	for i := 0; i < typ.NumField(); i++ {
 		field := typ.Field(i)
@@ -98,7 +108,7 @@ func schemaForStruct(typ reflect.Type) (Schema, error) {
 			continue
 		}
 
-		s, err := schemaForType(field.Type)
+		s, err := schemaForType(field.Type, seen...)
 		if err != nil {
 			return Schema{}, fmt.Errorf("getting schema for field %s: %w", name, err)
 		}
@@ -127,7 +137,7 @@ func schemaForStruct(typ reflect.Type) (Schema, error) {
 
 var namespaceReplacer = strings.NewReplacer("/", ".", "-", "_")
 
-func schemaForArray(typ reflect.Type) (Schema, error) {
+func schemaForArray(typ reflect.Type, seen ...reflect.Type) (Schema, error) {
 	elem := typ.Elem()
 	if elem.Kind() == reflect.Uint8 {
 		return Schema{
@@ -135,7 +145,7 @@ func schemaForArray(typ reflect.Type) (Schema, error) {
 		}, nil
 	}
 
-	s, err := schemaForType(elem)
+	s, err := schemaForType(elem, seen...)
 	if err != nil {
 		return Schema{}, fmt.Errorf("building array schema: %w", err)
 	}
@@ -148,12 +158,12 @@ func schemaForArray(typ reflect.Type) (Schema, error) {
 	}, nil
 }
 
-func schemaForMap(typ reflect.Type) (Schema, error) {
+func schemaForMap(typ reflect.Type, seen ...reflect.Type) (Schema, error) {
 	if typ.Key().Kind() != reflect.String {
 		return Schema{}, fmt.Errorf("type %s not supported: AVRO map keys must be strings", typ)
 	}
 
-	s, err := schemaForType(typ.Elem())
+	s, err := schemaForType(typ.Elem(), seen...)
 	if err != nil {
 		return Schema{}, err
 	}
